@@ -1067,10 +1067,17 @@ impl Iterator for Windows {
     }
 
     fn size_hint(&self) -> (usize, Option<usize>) {
+        // Each remaining input value completes a window once the cache has been filled,
+        // an input that's shorter than the window size doesn't produce any windows.
+        let carried_over = self.cache.len().saturating_sub(1);
+        let window_count = |input_count: usize| {
+            input_count
+                .saturating_add(carried_over)
+                .saturating_sub(self.window_size - 1)
+        };
+
         let (lower, upper) = self.iter.size_hint();
-        let lower = lower.saturating_sub(self.window_size) + 1;
-        let upper = upper.map(|upper| upper.saturating_sub(self.window_size) + 1);
-        (lower, upper)
+        (window_count(lower), upper.map(window_count))
     }
 }
 
